@@ -819,9 +819,11 @@ impl Task for AssembledExternalEquivalenceTask {
                             .flat_map(|g: GeneralLemma| g.consequences.into_iter()),
                     )
                     .add_annotated_formulas(self.forward_conclusions)
-                    .rename_conflicting_symbols()
                     .create_unique_formula_names()
-                    .decompose(self.decomposition),
+                    .decompose(self.decomposition)
+                    .into_iter()
+                    .map(Problem::rename_conflicting_symbols)
+                    .collect(),
             );
         }
 
@@ -862,9 +864,11 @@ impl Task for AssembledExternalEquivalenceTask {
                             .flat_map(|g: GeneralLemma| g.consequences.into_iter()),
                     )
                     .add_annotated_formulas(self.backward_conclusions)
-                    .rename_conflicting_symbols()
                     .create_unique_formula_names()
-                    .decompose(self.decomposition),
+                    .decompose(self.decomposition)
+                    .into_iter()
+                    .map(Problem::rename_conflicting_symbols)
+                    .collect(),
             );
         }
 
